@@ -55,12 +55,15 @@ Definition pure_out (t : stree) (fo : forest) (o : op) : out :=
   | OProfileFull => RProfile (profile_full t fo)
   | OClustering p => RClustering (ancestral_clustering fo p)
   | OIham oid => RIham (option_map (export_groups t) (find_hog fo oid))
+  | OProfileHog oid => RProfileHog (option_map (profile_hog t) (find_hog fo oid))
+  | ONav oid => RNav (option_map (fun h => (desc_genes h, genes_by_species h, desc_hogs h, desc_levels h)) (find_hog fo oid))
+  | OAtLevel r g => RAtLevel (get_at_level fo r g)
   end.
 
 Lemma sstep_spec t fo s o :
   cache_ok t fo s -> snd (sstep t fo s o) = pure_out t fo o /\ cache_ok t fo (fst (sstep t fo s o)).
 Proof.
-  intros Hok. destruct o as [g1 g2|g1 g2| |p|oid]; simpl.
+  intros Hok. destruct o as [g1 g2|g1 g2| |p|oid|oid|oid|r g]; simpl.
   - destruct (taxon_eqb g1 g2); [auto|]. destruct (orient g1 g2) as [[a d]|e]; [|auto].
     destruct (cached_map_spec t fo s a d Hok) as (E & Hok' & _).
     destruct (cached_map fo s a d) as [s' m]. simpl in *. subst m. auto.
@@ -79,6 +82,9 @@ Proof.
       split; [reflexivity|]. repeat split; simpl; auto.
       intros o x. destruct (Nat.eqb o oid) eqn:Eo; [|apply H3].
       apply Nat.eqb_eq in Eo. subst. intros H. inversion H. eauto.
+  - auto.
+  - auto.
+  - auto.
 Qed.
 
 Lemma srun_ok t fo ops : forall s, cache_ok t fo s -> cache_ok t fo (srun t fo ops s).
@@ -102,7 +108,7 @@ Proof. unfold add_genome. destruct (mem_tax p gs); auto. intros H. apply in_or_a
 
 Lemma sstep_genomes t fo s o x : cache_ok t fo s -> In x (ss_genomes s) -> In x (ss_genomes (fst (sstep t fo s o))).
 Proof.
-  intros Hok Hx. destruct o as [g1 g2|g1 g2| |p|oid]; simpl.
+  intros Hok Hx. destruct o as [g1 g2|g1 g2| |p|oid|oid|oid|r g]; simpl.
   - destruct (taxon_eqb g1 g2); auto. destruct (orient g1 g2) as [[a d]|e]; auto.
     destruct (cached_map_spec t fo s a d Hok) as (_ & _ & Eg). destruct (cached_map fo s a d) as [s' m]. simpl in *. congruence.
   - apply add_genome_incl. exact Hx.
@@ -115,6 +121,9 @@ Proof.
     apply IH. destruct (is_leaf t (fst pn)); [exact Hg|apply add_genome_incl; exact Hg].
   - destruct (clust_get p (ss_clust s)); auto.
   - destruct (vis_get oid (ss_vis s)); auto. destruct (find_hog fo oid); auto.
+  - auto.
+  - auto.
+  - auto.
 Qed.
 
 Theorem genomes_monotone t fo gs ops x : In x gs -> In x (ss_genomes (srun t fo ops (sinit gs))).
@@ -145,7 +154,7 @@ Theorem new_genomes t fo s o x :
   In x (ss_genomes (fst (sstep t fo s o))) ->
   In x (ss_genomes s) \/ (o = OProfileFull /\ is_leaf t x = false) \/ (exists g1 g2, o = OLateral g1 g2 /\ x = lcs g1 g2).
 Proof.
-  destruct o as [g1 g2|g1 g2| |p|oid]; simpl.
+  destruct o as [g1 g2|g1 g2| |p|oid|oid|oid|r g]; simpl.
   - destruct (taxon_eqb g1 g2); auto. destruct (orient g1 g2) as [[a d]|e]; auto.
     unfold cached_map. destruct (map_get (a, d) (ss_maps s)); simpl; auto.
   - intros H. apply add_genome_in in H as [H|H]; [auto|]. right. right. eauto.
@@ -156,6 +165,9 @@ Proof.
     + destruct (IH _ H) as [Hin|Hr]; [|auto]. apply add_genome_in in Hin as [Hin| ->]; auto.
   - destruct (clust_get p (ss_clust s)); auto.
   - destruct (vis_get oid (ss_vis s)); auto. destruct (find_hog fo oid); auto.
+  - auto.
+  - auto.
+  - auto.
 Qed.
 
 (* ---------- the genome listings: the extant one never changes, the ancestral one only gains internal nodes ---------- *)
@@ -223,7 +235,7 @@ Lemma sstep_genome_shape t fo s o :
 Proof.
   intros Ha. assert (Hnil : exists extra, ss_genomes s = ss_genomes s ++ extra /\ Forall (anc_node t) extra)
     by (exists []; rewrite app_nil_r; auto).
-  destruct o as [g1 g2|g1 g2| |p|oid]; simpl.
+  destruct o as [g1 g2|g1 g2| |p|oid|oid|oid|r g]; simpl.
   - destruct (taxon_eqb g1 g2); auto. destruct (orient g1 g2) as [[a d]|e]; auto.
     unfold cached_map. destruct (map_get (a, d) (ss_maps s)); simpl; auto.
   - destruct (Ha g1 g2 eq_refl) as (Hv & Hin). apply lateral_genome_shape; assumption.
@@ -231,6 +243,9 @@ Proof.
     apply profile_genome_shape. apply Forall_forall. intros pn Hpn. apply all_nodes_valid. apply in_map. exact Hpn.
   - destruct (clust_get p (ss_clust s)); auto.
   - destruct (vis_get oid (ss_vis s)); auto. destruct (find_hog fo oid); auto.
+  - auto.
+  - auto.
+  - auto.
 Qed.
 
 (* the arguments of lateral comparisons are genomes that exist (arguments are drawn from the loaded objects) *)
